@@ -16,7 +16,8 @@ CHECKS = {
         "attributes python.rs reads (and the model dataclasses are compared with that table and the constructor argument order); regions "
         "must mirror the hierarchy, nodes list exactly their signature's value/control ports, two listed ports share a link name iff an "
         "edge joins them with the (1,n)/(n,1) hyperedge rule, applied function symbols must be the callee's, loaded constants must be "
-        "inlined, every sibling order edge must appear as a hint with matching keys, metadata must be carried over.",
+        "inlined, every sibling order edge must appear as a hint with matching keys, metadata must be carried over, and each node's signature "
+        "term must have as many inputs/outputs as the node lists (M-SIG).",
         "Trusted: vf/props/c12.py checker, wire port tables. Term spelling of types vs hugr-core's exporter and the text/binary encodings are "
         "out of reach (native module absent).",
         "DESIGN.md §3 C12",
@@ -27,7 +28,7 @@ CHECKS = {
         "arguments and arguments of other opaque types, over std, harness and freshly generated definitions) and 600 / 20000 loaded module "
         "HUGRs are resolved against empty, single-extension, subset, complete and definition-pruned registries. Every position must be "
         "replaced exactly when the registry defines it; the serialized form (descriptions masked), the exported model, signatures, port "
-        "kinds/types and bounds must not change; resolving twice must equal resolving once.",
+        "kinds/types and bounds must not change (also when the loaded runtime requirements were perturbed); resolving twice must equal resolving once.",
         "Trusted: the view/expectation functions in vf/props/c11.py; registries are built from pruned copies of the real definitions.",
         "DESIGN.md §3 C11",
     ),
@@ -75,7 +76,7 @@ CHECKS = {
         "One execution per configuration of the real schema generator (fresh process) must reproduce the published strict/lax HUGR and testing "
         "schemas as JSON values modulo the neutral `additionalProperties: true`; model version strings must equal the file-name suffixes and no "
         "other schema file may exist. Supporting: hundreds (quick) / thousands (thorough) of emitted HUGR/package/extension documents and "
-        "mutations (required-key deletion, unknown keys, unknown tags, wrong containers) must get the same verdict from jsonschema under the "
+        "mutations (required-key deletion incl. every top-level key systematically, unknown keys, unknown tags, wrong containers) must get the same verdict from jsonschema under the "
         "published file and from pydantic under the same configuration.",
         "Trusted: pydantic's schema emission describing its own validation (sampled by the differential, one open known finding about strict "
         "rebuilds); jsonschema Draft 2020-12. 'For all documents' is decided by structural identity, not by sampling.",
@@ -116,7 +117,7 @@ CHECKS = {
         "Every emitted HUGR document (programs, programs+histories with holes, order-link-heavy cases, planted attribute-rich ops), package "
         "document and generated extension document is validated against the published strict JSON schema (sampled 1/4 for HUGRs in quick), "
         "checked for root/parent/edge index sanity, and its edge multiset is compared with the one computed independently from links() and "
-        "the emitted ops' signatures (value port k at k, static input after the value inputs, order edge on the next port).",
+        "the emitted ops' signatures (value port k at k, static input after the value inputs incl. arity-changing row-polymorphic calls, order edge on the next port).",
         "Trusted: the published schema file, vf/oracles/wire.py port tables. One index-reuse mechanism is an open known finding. "
         "Not covered: what serde would reject although schema-valid (e.g. u8 overflow of UnitSum.size).",
         "DESIGN.md §3 C03",
@@ -136,7 +137,8 @@ CHECKS = {
         "Every step of every history (all 87k histories of length <= 3 over a 44-step alphabet in quick, length <= 4 in thorough; thousands of "
         "random collision-heavy histories with fan-outs, parallel links, order links, leaf deletions, index reuse and insert_hugr) is applied "
         "to the real Hugr and to an 80-line model; after each step every public query (iteration, lookup, parent/children, links(), linked_ports "
-        "from both ends, link and order-link listings, port counts, handle stability) is compared and the internal shape invariant is walked.",
+        "from both ends, link and order-link listings, port counts, handle stability) is compared and the internal shape invariant is walked; the "
+        "same invariant runs as a contract around every store call of generated builder programs and of the repo's own tests.",
         "Trusted: vf/oracles/store.py model. Non-leaf deletion, empty per-port listing entries, num_incoming/num_outgoing and link order are outside the comparison.",
         "DESIGN.md §3 C04",
     ),
@@ -144,18 +146,20 @@ CHECKS = {
         "reference-model monitor on outputs: generated well-formed builder programs (and the repo's own builder tests via a HUGR_BIN shim) are run against the real builders and every serialized HUGR is checked by an independent JSON-level re-implementation of the validator rules",
         "1500 (quick) / 40000 (thorough) type-directed, linearity-respecting builder programs over all six root kinds, nested to depth 3/5, "
         "covering Ext/Dom/static/order edges, partially used multi-output ops, polymorphic and row-polymorphic calls, conditionals, tail "
-        "loops, five CFG shapes and every insert_* mode, are interpreted against the real builders; each emitted document is validated "
+        "loops, five CFG shapes and every insert_* mode, plus TrackedDfg circuits (tracked indices mixed with explicit wires), are interpreted against the real builders; each emitted document is validated "
         "against 16 rule families transcribed from hugr-core's validate.rs. A negative self-test proves every rule can fire. Held = no "
         "rule violated on any observed program.",
         "Trusted base: vf/oracles/validator.py + vf/oracles/wire.py (the `hugr validate` binary cannot be built offline), the program "
-        "generator's well-formedness by construction. Not covered: runtime_reqs inference, user-defined AsExtOp classes, TrackedDfg roots (see C15).",
+        "generator's well-formedness by construction. Not covered: runtime_reqs inference, user-defined AsExtOp classes.",
         "DESIGN.md §3 C01",
     ),
     "C06": (
         "spec-table oracle evaluated on generator parameters vs what the real op objects report",
         "For 16000 (quick) / 600000 (thorough) generated op instances of 23 kinds (all rows incl. empty, linear, nested; row-polymorphic "
         "signatures with arity-changing instantiations) the outer/inner signature rows, every port kind and type (value, static and order "
-        "ports), num_out, nth_inputs/nth_outputs and Hugr.port_type are compared with a table computed from the descriptors alone.",
+        "ports), num_out, nth_inputs/nth_outputs and Hugr.port_type are compared with a table computed from the descriptors alone. Two cross-cutting strata: "
+        "every port of every node of generated builder programs (kind from the op vs type of the linked peer), and one partial-op instance "
+        "(MakeTuple / UnpackTuple / Noop / CallIndirect) re-used through the builders with several rows (facts must follow the current typing).",
         "Trusted: the spec table in vf/props/c06.py and vf/gen/types.py wire forms. runtime_reqs not compared; out-of-range offsets not queried.",
         "DESIGN.md §3 C06",
     ),
@@ -164,7 +168,7 @@ CHECKS = {
         "All ints and positive-step slices in a box around [-n, n] for n = 0..6 (quick) / 0..9 (thorough) are applied to real handles and "
         "compared with Python range(n) semantics under the two stated licences; thousands of builder scenarios (every add/insert/call/load "
         "API and every container builder, incl. row-polymorphic calls) check that the returned handle enumerates exactly the outputs the "
-        "generator's parameters dictate.",
+        "generator's parameters dictate, including handles created on recycled node indices.",
         "Trusted: the expected output counts written in the scenario table. Negative indexing on unknown-count handles not asserted.",
         "DESIGN.md §3 C16",
     ),
@@ -173,7 +177,8 @@ CHECKS = {
         "Generated well-typed value expressions (general sums and every sugar helper, std int/float/string/array/list/static-array "
         "constants, function values; nesting to depth 3/5) are built with the real constructors; the serialized form must inhabit the "
         "reported type under a JSON-level re-implementation of the Rust rules, the reported type must equal the descriptor's, helper tags "
-        "must be the documented ones, collections must embed each element completely, and Const/LoadConst from DfBase.load must agree.",
+        "must be the documented ones, collections must embed each element completely, and Const/LoadConst from DfBase.load must agree (also for "
+        "every load in generated builder programs); helper constructors are also handed one-shot iterables.",
         "Trusted: vf/oracles/wire.py (inhabits, canonical types), vf/gen/values.py type_of. A negative self-test of the oracle runs first.",
         "DESIGN.md §3 C14",
     ),
